@@ -134,6 +134,19 @@ def r1(ctx):
                             pp = t['op'].get('c') or t['op'].get('m')
                             if pp:
                                 covered |= {e[2] for e in pp[1] if isinstance(e, list) and e[0] == 'F'}
+                    # ... and the fields read by a method of Transform that the closure asks (e.g. sees_original_path: `copy` and the command)
+                    for k in cb.calls(r'^transform::Transform::\w+$'):
+                        hb = lib.body(k.path)
+                        for y in ([hb] + [lib.body(x) for x in lib.closures_of(hb.path)]) if hb is not None else []:
+                            for blk in y.blocks:
+                                for st in blk['stmts']:
+                                    for pl in rvalue_places(st['rv']):
+                                        covered |= {e[2] for e in pl[1] if isinstance(e, list) and e[0] == 'F'}
+                                t = blk['term']
+                                if t['k'] == 'switch':
+                                    pp = t['op'].get('c') or t['op'].get('m')
+                                    if pp:
+                                        covered |= {e[2] for e in pp[1] if isinstance(e, list) and e[0] == 'F'}
     missing = sorted(selecting - covered)
     ctx.check(not missing, rule, nc.path + '|identity-covers-mode', (od[0].where() if od else nc.where()), 'the cache identity depends on %s' % sorted(selecting | {'command_str'}),
               'Transform.%s decides which stream is hashed or what the command is given as $IN (make_args builds a different Output / Input under it) but is not part of the cache identity (tree id = algorithm + command string): a run with '
@@ -193,7 +206,12 @@ def r6(ctx):
         if t['k'] != 'switch' or b.blocks[d]['cleanup']:
             continue
         sl = backslice(b, [t['op']])
-        reads_ct = sl.has_call(CT) or any(lib.body(c.path) is not None and lib.body(c.path).calls(CT) for c in sl.calls if c.path)
+        def reads_ct_(path_, depth=3):
+            hb_ = lib.body(path_) if path_ else None
+            if hb_ is None or depth == 0:
+                return False
+            return bool(hb_.calls(CT)) or any(reads_ct_(k2.path, depth - 1) for k2 in hb_.calls(r'^cache::\w+$'))
+        reads_ct = sl.has_call(CT) or any(reads_ct_(c.path) for c in sl.calls if c.path)
         tests_age = any(lib.body(c.path) is not None and (lib.body(c.path).calls(r'subsec_(nanos|micros|millis)$') or c.path.endswith('is_racy')) for c in sl.calls if c.path) or sl.has_call(r'subsec_(nanos|micros|millis)$')
         if reads_ct and tests_age:
             succ = [x for x in dict.fromkeys(t['tgts']) if b.blocks[x]['term']['k'] != 'unreach']
@@ -234,6 +252,12 @@ def r7(ctx):
                         cb = lib.body(cp) if cp else None
                         if cb is not None and any('copy' in place_fields(pl) for blk in cb.blocks for st in blk['stmts'] for pl in rvalue_places(st['rv'])):
                             return True
+                        # ... or asks a method of Transform that reads it (sees_original_path)
+                        if cb is not None:
+                            for k2 in cb.calls(r'^transform::Transform::\w+$'):
+                                hb = lib.body(k2.path)
+                                if hb is not None and any('copy' in place_fields(pl) for blk in hb.blocks for st in blk['stmts'] for pl in rvalue_places(st['rv'])):
+                                    return True
             if 'copy' in sl.field_names():
                 return True
         for d in b.dominators()[call.bb]:
@@ -243,6 +267,24 @@ def r7(ctx):
                 if df and df[0] == 'copy':
                     return True
         return False
+    # ... but ONLY then: `copy` alone is also false for every command without $IN (the file is piped to stdin - the documented default), whose result
+    # depends on the contents only; the switch has to look at the command as well (Transform::sees_original_path: `$IN` && !copy)
+    def by_copy_alone(call):
+        for a in call.args[1:2]:
+            sl = backslice(b, [a])
+            for k in sl.calls:
+                if k.matches(r'Option::<T>::filter$|Option<.*>::filter$|bool::then$|bool::then_some$'):
+                    for a2 in k.args:
+                        l = op_local(a2)
+                        cp = lib.closure_of_type(b.local_ty(l)) if l is not None else None
+                        cb = lib.body(cp) if cp else None
+                        if cb is not None and any('copy' in place_fields(pl) for blk in cb.blocks for st in blk['stmts'] for pl in rvalue_places(st['rv'])) and \
+                                not cb.calls(r'^transform::Transform::\w+$'):
+                            return True
+        return False
+    ctx.check(not by_copy_alone(ld[0]), rule, b.path + '|piped-transforms-are-cached', ld[0].where(), 'the cache is bypassed for transforms that see the original path, not for every transform without a copy',
+              'the cache is switched off by `Transform.copy` alone, which is initialised with "the command contains $IN": it is false for every command that reads its standard input '
+              '(`--transform "gzip -dc"`, `cat`, ..), so `group --cache --transform <piped command>` never looks anything up nor stores anything - the program is launched for every file in every run')
     ok = depends_on_copy(ld[0]) and all(depends_on_copy(c) for c in stc)
     ctx.check(ok, rule, b.path + '|path-dependent-results-not-cached', ld[0].where(), 'without `copy` (the program gets the path of the file itself) the cache is neither consulted nor filled',
               'hash_transformed looks up and stores the result by (device, inode, chunk) also when the transform runs without a temporary copy: the program is then given the path of the file itself, '
@@ -302,8 +344,14 @@ def r2(ctx):
         sa, sb = backslice(b, [cmp.a]), backslice(b, [cmp.b])
         for cached, cur in ((sa, sb), (sb, sa)):
             cf = cached.field_names() - {'modified_timestamp_ms', 'file_len', 'data_len', 'hash'}
-            curc = [k for k in cur.calls if k.matches(r'MetadataExt.*::(ctime|ctime_nsec)$|Metadata::created$|::(ctime|ctime_nsec|btime|created)$') or
-                    (k.path and lib.body(k.path) is not None and lib.body(k.path).calls(r'MetadataExt.*::(ctime|ctime_nsec)$|Metadata::created$'))]
+            def reads_incarnation(path_, depth=3):
+                hb_ = lib.body(path_) if path_ else None
+                if hb_ is None or depth == 0:
+                    return False
+                if hb_.calls(r'MetadataExt.*::(ctime|ctime_nsec)$|Metadata::created$'):
+                    return True
+                return any(reads_incarnation(k2.path, depth - 1) for k2 in hb_.calls(r'^cache::\w+$'))
+            curc = [k for k in cur.calls if k.matches(r'MetadataExt.*::(ctime|ctime_nsec)$|Metadata::created$|::(ctime|ctime_nsec|btime|created)$') or reads_incarnation(k.path)]
             if cf and curc and cmp.op in ('==', '!='):
                 br = branch_of(b, cmp)
                 if br:
@@ -312,6 +360,21 @@ def r2(ctx):
                     ne_side = ft if cmp.op == '==' else tt
                     if b.dominates(eq_side, hbb) and hbb not in b.reachable(ne_side):
                         inc = cmp
+    # ... and that survives what does not change the contents: rename, chmod, chown, link / unlink of another name all update st_ctime - the stamp is the
+    # BIRTH time where the file system records one (Metadata::created), the status-change time only as a fallback
+    stamp_fns = [x for p_, x in lib.bodies.items() if p_.startswith('cache::') and '{' not in p_ and x.calls(r'MetadataExt.*::(ctime|ctime_nsec)$|Metadata::created$')]
+    birth_first = bool(stamp_fns) and all(x.calls(r'Metadata::created$') for x in stamp_fns)
+    if birth_first:
+        for x in stamp_fns:
+            cr = x.calls(r'Metadata::created$')
+            ct = x.calls(r'MetadataExt.*::(ctime|ctime_nsec)$')
+            # the ctime is read only where created() has failed: not before it, and not on the path where it succeeded
+            if ct and not all(c.bb in x.reachable(cr[0].bb) for c in ct):
+                birth_first = False
+    ctx.check(birth_first, rule, P + '|renaming-keeps-the-entry', (stamp_fns[0].where() if stamp_fns else b.where()), 'the incarnation stamp is the birth time of the file, the status-change time only where there is none',
+              'the entry is validated by the status-change time, which rename(2), chmod, chown and link / unlink of another name update: after `mv t/a t/sub/renamed` every cached hash of the file is '
+              'thrown away and the file is read again (8 MB read instead of 0) - the cache is keyed by the inode exactly so that this does not happen (README: "Cached hashes are not invalidated by '
+              'file moves"); reorganising a collection between two `group --cache` runs costs a complete re-read')
     ctx.check(inc is not None, rule, P + '|inode-incarnation', (b.where(inc.line) if inc else b.where()), 'hit only if the entry belongs to this incarnation of the inode (status-change / birth time unchanged)',
               'an entry is validated by modification time and length only, but it is found by (device, inode), and a freed inode number is handed out again at once: files created after others were deleted '
               '(`rm -r d; tar xf data.tar e` - tar restores the recorded, often identical, mtimes) are served the hashes of the deleted files of the same length: `group --cache` reports 99 groups of files '
